@@ -36,6 +36,7 @@ LEDGER_WRITERS = {
     "interpreter::Interpreter::process_vm_result": "result mapping (step path)",
     "interpreter::Interpreter::fulfill_orders": "host responses",
     "ffi::order::tsrun_create_pending_order": "C API order creation",
+    "interpreter::Interpreter::abort_active_execution": "disposal of a run the host abandoned: drops the continuation parked for an order (suspended_for_order)",
     "interpreter::Interpreter::new": "construction",
     "interpreter::Interpreter::with_config": "construction",
 }
